@@ -1,42 +1,59 @@
 (* C02 — no silent failure.  Property theorems only.
 
-   Two mirrors are joined here: Model.Includes (C19: FileStack, the parse_files
+   The mirrors joined here: Model.Includes (C19: FileStack, the parse_files
    loop — which files are read, the FileLibrary with its user flags, the OS /
-   include / parse error reports) and Model.Runner (C03: caches, writers,
-   filters, exit status), by Model.Front (errors.rs `into_report`,
-   FileLibrary::user_inputs, the hand-over in cli/src/main.rs).  The file
-   system (any type of paths with decidable equality, any canon, is_dir,
-   is_file, read_dir, join, parent, file_name, ext_circom, starts_dot, has_sep,
-   content with canon idempotent), the command line, the -L list, the reports
-   of the stages outside the mirrors ([others]), the definitions with what
-   lifting and the passes produce for them ([defs]), the options and the
-   analysis order are universally quantified.
+   include / parse error reports), Model.FrontStages (third pass: the version
+   check and the main-component match of parser/src/lib.rs mirrored there; the
+   desugaring stage = Model.Desugar, C18; the error values of generate_cfg =
+   Model.LiftFull, C13, and the chain Model.PipelineMirrors, C01) and
+   Model.Runner (C03: caches, writers, filters, exit status), by Model.Front
+   (errors.rs `into_report`, FileLibrary::user_inputs, the hand-over in
+   cli/src/main.rs).  The file system (any type of paths with decidable
+   equality, any canon, is_dir, is_file, read_dir, join, parent, file_name,
+   ext_circom, starts_dot, has_sep, content with canon idempotent), the command
+   line, the -L list, what the parser yields for the files that were read
+   (pragma, has_main, the program [pr] with the syntax trees of its
+   definitions), the compiler version, the report codes, the hash orders and
+   budgets of the chain, the reports of the stages outside the mirrors
+   ([rest]), what lifting / SSA / the passes produce besides the error
+   ([after]), the options and the analysis order are universally quantified.
 
-   Of the ten failure classes of the property text, FOUR are derived here —
-   a named path that cannot be opened, a file whose content cannot be read, a
-   named file that does not parse, an include of a named file that resolves
-   nowhere ([class_producer c = ByIncludes]): the hypothesis ([failure_event],
-   Spec.NoSilentSpec) is a fact about the FILE SYSTEM; that the error report
-   is in the project handed to the runner, that it is error level, with a
-   location that passes the file filter, is derived (that errors.rs gives
-   these reports the category and the code Model.Front.report_of says is
-   compared on every project of the matrix, engine front).  The other SIX
-   (version pragma, several main components, invalid tuple / anonymous
-   component, duplicate parameter, lift failure, duplicate definition) are
-   produced by stages outside both mirrors; for them there is NO class
-   theorem: once such a report exists with error level, C02_error_report_displayed
-   (the runner's filter law) applies, and that the real stages produce it is
-   covered by the injection matrix of lib/props/C02.py only. *)
-From Coq Require Import ZArith Permutation Ascii String.
+   Of the ten failure classes of the property text (Spec.NoSilentSpec)
+   EIGHT are derived (class_derivation c = Derived): a named path that cannot be
+   opened, a file whose content cannot be read, a named file that does not
+   parse, an include of a named file that resolves nowhere (second pass), and
+   — third pass — an unsupported compiler version, several main components,
+   a template / function of a named file the desugarer rejects (invalid tuple
+   or anonymous component), a repeated parameter name.  For these the event
+   ([failure_event]) is a fact about the file system / the syntax trees; that
+   the error report is in the project handed to the runner, that it is error
+   level, with a location that passes the file filter, is derived.
+   LiftFailure is DerivedUpToLocation: the event is that the mirrors of
+   into_cfg / into_ssa answer with InvalidVariableNameError /
+   UndefinedVariableError for a definition of a named file; existence, level and
+   code of the report are derived, the file id inside the error value (not
+   returned by those mirrors: parameter [err_file]) is asked to be absent or
+   the definition's own file.  DuplicateDefinition (ProgramArchive::new, no
+   mirror) is Assumed: NO class theorem; once such a report exists with error
+   level, C02_error_report_displayed (the runner's filter law) applies, and
+   that the real stage produces it is covered by the injection matrix of
+   lib/props/C02.py only.
+   That errors.rs gives the reports the category, the code and the primary
+   file ids Model.Front.report_of / Model.FrontStages.item_report say is
+   compared on every project of the matrix (engine front). *)
+From Coq Require Import ZArith NArith Permutation Ascii String.
 Require Import Gen.Category Model.Runner Spec.RunnerSpec Proofs.RunnerProofs.
 From stdpp Require Import list strings.
-Require Import Model.Includes Model.Front Spec.IncludesSpec Spec.NoSilentSpec Proofs.NoSilentProofs.
+Require Import Model.Includes Model.Front Model.FrontStages Spec.IncludesSpec Spec.NoSilentSpec Proofs.NoSilentProofs.
+Require Model.Ast Model.Desugar Model.LiftFull Model.PipelineMirrors Spec.ExpandSpec.
+Require Proofs.NoSilentStages Proofs.DesugarErrLoc.
 
-(* the four derived failure classes (class_producer c = ByIncludes: MissingFile,
-   UnreadableFile, SyntaxError, UnresolvedInclude): the report of the event is
-   displayed, it is error level, and the exit status is 1 — unless that very id
-   is allow-listed.  The hypothesis failure_event is, for these classes, a
-   statement about the file system and the FileLibrary only. *)
+(* the nine failure classes with a derivation (class_derivation c <> Assumed:
+   all but DuplicateDefinition): the report of the event is displayed, it is
+   error level, and the exit status is 1 — unless that very id is allow-listed.
+   The event is a statement about the file system, the FileLibrary and the
+   syntax trees only (for LiftFailure also about the file id inside the error
+   value, see above). *)
 Theorem C02_failure_classes_reported :
   forall (path : Type) (EqDecision0 : EqDecision path)
          (canon : path -> option path) (is_dir is_file : path -> bool)
@@ -45,27 +62,33 @@ Theorem C02_failure_classes_reported :
          (ext_circom starts_dot has_sep : path -> bool) (content : path -> file_content path),
     (forall p c, canon p = Some c -> canon c = Some c) ->
     forall (pf_id pf_name : Z) (payload : Includes.report (path:=path) -> Z)
+           (pragma : path -> option version) (has_main : path -> bool) (cv : version) (cs : codes)
+           (spay : stage_item path -> Z) (ord : nat -> list nat -> list nat) (horder : list nat -> list nat)
+           (prime : Z) (kv kd : nat) (err_file : PM.definition -> option N)
+           (name_id : String.string -> Z) (after : PM.definition -> def)
            (dfuel fuel : nat) (argv libs : list path) (s : parse_state),
       parse_files canon is_dir is_file read_dir join parent file_name ext_circom starts_dot has_sep content
                   false dfuel fuel argv libs = Base.Ok s ->
-      forall (others : list Runner.report) (defs : list def) (o : opts) (order : list key)
-             (c : failure_class) (r : Runner.report),
-        class_producer c = ByIncludes ->
-        wf_project (front_project pf_id pf_name payload s others defs) ->
-        analysis_order (front_project pf_id pf_name payload s others defs) order ->
-        failure_event canon is_dir is_file read_dir join parent file_name ext_circom starts_dot has_sep content
-                      pf_id pf_name payload argv libs s others defs c r ->
-        ~ In (r_id r) (o_allow o) ->
-        In r (res_shown (run_keys (front_project pf_id pf_name payload s others defs) o order)) /\
-        r_level r = Error /\
-        res_exit (run_keys (front_project pf_id pf_name payload s others defs) o order) = 1%Z.
+      forall (pr : PM.program) (sd : Desugar.desugared) (rest : list Runner.report),
+        sugar_input pr = Desugar.DOk sd ->
+        forall (o : opts) (order : list key) (c : failure_class) (r : Runner.report),
+          class_derivation c <> Assumed ->
+          wf_project (stage_project content pragma has_main cv pf_id pf_name cs spay ord horder prime kv kd err_file name_id after payload s pr sd rest) ->
+          analysis_order (stage_project content pragma has_main cv pf_id pf_name cs spay ord horder prime kv kd err_file name_id after payload s pr sd rest) order ->
+          failure_event canon is_dir is_file read_dir join parent file_name ext_circom starts_dot has_sep content pf_id pf_name payload pragma has_main cv cs spay ord horder prime kv kd err_file argv libs s pr sd rest c r ->
+          ~ In (r_id r) (o_allow o) ->
+          In r (res_shown (run_keys (stage_project content pragma has_main cv pf_id pf_name cs spay ord horder prime kv kd err_file name_id after payload s pr sd rest) o order)) /\
+          r_level r = Error /\
+          res_exit (run_keys (stage_project content pragma has_main cv pf_id pf_name cs spay ord horder prime kv kd err_file name_id after payload s pr sd rest) o order) = 1%Z.
 Proof. exact @derived_classes_reported. Qed.
 Print Assumptions C02_failure_classes_reported.
 
-(* the events of the Includes mirror are not hypothetical: a named file that
-   does not parse, an include statement of a named file that resolves nowhere,
-   has its event (for a path that cannot be opened and for an unreadable file
-   the event is the file-system fact itself, see Spec.NoSilentSpec) *)
+(* the events are not hypothetical: a named file that does not parse, an
+   include statement of a named file that resolves nowhere, a template / a
+   function of a named file that `remove_syntactic_sugar` does not hand on has
+   its event (for a path that cannot be opened, an unreadable file, a pragma,
+   two main components, a repeated parameter the event is the fact itself,
+   see Spec.NoSilentSpec) *)
 Theorem C02_front_failures_have_reports :
   forall (path : Type) (EqDecision0 : EqDecision path)
          (canon : path -> option path) (is_dir is_file : path -> bool)
@@ -74,28 +97,40 @@ Theorem C02_front_failures_have_reports :
          (ext_circom starts_dot has_sep : path -> bool) (content : path -> file_content path),
     (forall p c, canon p = Some c -> canon c = Some c) ->
     forall (pf_id pf_name : Z) (payload : Includes.report (path:=path) -> Z)
+           (pragma : path -> option version) (has_main : path -> bool) (cv : version) (cs : codes)
+           (spay : stage_item path -> Z) (ord : nat -> list nat -> list nat) (horder : list nat -> list nat)
+           (prime : Z) (kv kd : nat) (err_file : PM.definition -> option N)
            (dfuel fuel : nat) (argv libs : list path) (s : parse_state),
       parse_files canon is_dir is_file read_dir join parent file_name ext_circom starts_dot has_sep content
                   false dfuel fuel argv libs = Base.Ok s ->
-      forall (others : list Runner.report) (defs : list def),
+      forall (pr : PM.program) (sd : Desugar.desugared) (rest : list Runner.report),
+        sugar_input pr = Desugar.DOk sd ->
         (forall f, named canon is_dir read_dir join ext_circom argv f -> content f = Unparsable ->
-           exists r, failure_event canon is_dir is_file read_dir join parent file_name ext_circom starts_dot
-                                   has_sep content pf_id pf_name payload argv libs s others defs SyntaxError r) /\
+           exists r, failure_event canon is_dir is_file read_dir join parent file_name ext_circom starts_dot has_sep content pf_id pf_name payload pragma has_main cv cs spay ord horder prime kv kd err_file argv libs s pr sd rest SyntaxError r) /\
         (forall f incs p a b,
            named canon is_dir read_dir join ext_circom argv f -> content f = Parsed incs -> (p, a, b) ∈ incs ->
            resolves canon is_file join parent file_name starts_dot has_sep f
                     (the_libraries canon is_dir ext_circom libs) p None ->
-           exists r, failure_event canon is_dir is_file read_dir join parent file_name ext_circom starts_dot
-                                   has_sep content pf_id pf_name payload argv libs s others defs UnresolvedInclude r).
+           exists r, failure_event canon is_dir is_file read_dir join parent file_name ext_circom starts_dot has_sep content pf_id pf_name payload pragma has_main cv cs spay ord horder prime kv kd err_file argv libs s pr sd rest UnresolvedInclude r) /\
+        (forall n body fid,
+           In (n, body) (PM.named_bodies (PM.pr_templates pr)) -> body_in_file fid body ->
+           file_is_named canon is_dir read_dir join ext_circom argv s (Z.of_N fid) ->
+           ~ In n (map fst (Desugar.d_templates sd)) ->
+           exists r, failure_event canon is_dir is_file read_dir join parent file_name ext_circom starts_dot has_sep content pf_id pf_name payload pragma has_main cv cs spay ord horder prime kv kd err_file argv libs s pr sd rest InvalidTupleOrAnonymous r) /\
+        (forall n body fid,
+           In (n, body) (PM.named_bodies (PM.pr_functions pr)) -> body_in_file fid body ->
+           file_is_named canon is_dir read_dir join ext_circom argv s (Z.of_N fid) ->
+           ~ In n (map fst (Desugar.d_functions sd)) ->
+           exists r, failure_event canon is_dir is_file read_dir join parent file_name ext_circom starts_dot has_sep content pf_id pf_name payload pragma has_main cv cs spay ord horder prime kv kd err_file argv libs s pr sd rest InvalidTupleOrAnonymous r).
 Proof. exact @front_failures_have_reports. Qed.
 Print Assumptions C02_front_failures_have_reports.
 
 (* exit status 0 ("No issues found.") with the parse-failure id not allow-listed
    only if every path the command line stands for could be opened, every file
    reached was readable, every named file parsed and had each include served
-   by a file that was read; and every definition living in a named file was
-   taken up by the runner (its `analyzing` line is in the log) and, unless the
-   id of its error is allow-listed, lifted *)
+   by a file that was read; and every definition living in a named file that
+   is handed to the runner was taken up (its `analyzing` line is in the log)
+   and, unless the id of its error is allow-listed, lifted *)
 Theorem C02_clean_only_if_all_read_and_analysed :
   forall (path : Type) (EqDecision0 : EqDecision path)
          (canon : path -> option path) (is_dir is_file : path -> bool)
@@ -104,24 +139,115 @@ Theorem C02_clean_only_if_all_read_and_analysed :
          (ext_circom starts_dot has_sep : path -> bool) (content : path -> file_content path),
     (forall p c, canon p = Some c -> canon c = Some c) ->
     forall (pf_id pf_name : Z) (payload : Includes.report (path:=path) -> Z)
+           (pragma : path -> option version) (has_main : path -> bool) (cv : version) (cs : codes)
+           (spay : stage_item path -> Z) (ord : nat -> list nat -> list nat) (horder : list nat -> list nat)
+           (prime : Z) (kv kd : nat) (err_file : PM.definition -> option N)
+           (name_id : String.string -> Z) (after : PM.definition -> def)
            (dfuel fuel : nat) (argv libs : list path) (s : parse_state),
       parse_files canon is_dir is_file read_dir join parent file_name ext_circom starts_dot has_sep content
                   false dfuel fuel argv libs = Base.Ok s ->
-      forall (others : list Runner.report) (defs : list def) (o : opts) (order : list key),
-        wf_project (front_project pf_id pf_name payload s others defs) ->
-        analysis_order (front_project pf_id pf_name payload s others defs) order ->
-        res_exit (run_keys (front_project pf_id pf_name payload s others defs) o order) = 0%Z ->
-        ~ In pf_id (o_allow o) ->
-        all_named_read canon is_dir is_file read_dir join parent file_name ext_circom starts_dot has_sep content
-                       argv libs s /\
-        (forall d, In d defs -> file_is_named canon is_dir read_dir join ext_circom argv s (d_file d) ->
-           In (MAnalyzing (d_key d))
-              (res_log (run_keys (front_project pf_id pf_name payload s others defs) o order)) /\
-           (forall e, d_err d = Some e -> r_level e = Error ->
-                      not_in_included_only canon is_dir read_dir join ext_circom argv s e ->
-                      In (r_id e) (o_allow o))).
+      forall (pr : PM.program) (sd : Desugar.desugared) (rest : list Runner.report),
+        sugar_input pr = Desugar.DOk sd ->
+        forall (o : opts) (order : list key),
+          wf_project (stage_project content pragma has_main cv pf_id pf_name cs spay ord horder prime kv kd err_file name_id after payload s pr sd rest) ->
+          analysis_order (stage_project content pragma has_main cv pf_id pf_name cs spay ord horder prime kv kd err_file name_id after payload s pr sd rest) order ->
+          res_exit (run_keys (stage_project content pragma has_main cv pf_id pf_name cs spay ord horder prime kv kd err_file name_id after payload s pr sd rest) o order) = 0%Z ->
+          ~ In pf_id (o_allow o) ->
+          all_named_read canon is_dir is_file read_dir join parent file_name ext_circom starts_dot has_sep content
+                         argv libs s /\
+          (forall d, In d (stage_defs pf_id pf_name cs spay ord horder prime kv kd err_file name_id after pr sd) ->
+             file_is_named canon is_dir read_dir join ext_circom argv s (d_file d) ->
+             In (MAnalyzing (d_key d))
+                (res_log (run_keys (stage_project content pragma has_main cv pf_id pf_name cs spay ord horder prime kv kd err_file name_id after payload s pr sd rest) o order)) /\
+             (forall e, d_err d = Some e -> r_level e = Error ->
+                        not_in_included_only canon is_dir read_dir join ext_circom argv s e ->
+                        In (r_id e) (o_allow o))).
 Proof. exact @clean_only_if_all_read_and_analysed. Qed.
 Print Assumptions C02_clean_only_if_all_read_and_analysed.
+
+(* exit status 0 with none of the error codes of the mirrored stages
+   allow-listed only if, besides: every file that was reached asks for a
+   supported compiler version or for none; at most one of them has a main
+   component; the desugarer handed on every template and every function of the
+   named files; and every definition of a named file that is handed to the
+   runner was taken up, does not repeat a parameter name, and was answered
+   with no error by the mirrors of into_cfg / into_ssa (unless the id of that
+   error is allow-listed, or the file id inside the error value points into
+   another file) *)
+Theorem C02_clean_only_if_stages_passed :
+  forall (path : Type) (EqDecision0 : EqDecision path)
+         (canon : path -> option path) (is_dir is_file : path -> bool)
+         (read_dir : path -> option (list path)) (join : path -> path -> path)
+         (parent : path -> path) (file_name : path -> option path)
+         (ext_circom starts_dot has_sep : path -> bool) (content : path -> file_content path),
+    (forall p c, canon p = Some c -> canon c = Some c) ->
+    forall (pf_id pf_name : Z) (payload : Includes.report (path:=path) -> Z)
+           (pragma : path -> option version) (has_main : path -> bool) (cv : version) (cs : codes)
+           (spay : stage_item path -> Z) (ord : nat -> list nat -> list nat) (horder : list nat -> list nat)
+           (prime : Z) (kv kd : nat) (err_file : PM.definition -> option N)
+           (name_id : String.string -> Z) (after : PM.definition -> def)
+           (dfuel fuel : nat) (argv libs : list path) (s : parse_state),
+      parse_files canon is_dir is_file read_dir join parent file_name ext_circom starts_dot has_sep content
+                  false dfuel fuel argv libs = Base.Ok s ->
+      forall (pr : PM.program) (sd : Desugar.desugared) (rest : list Runner.report),
+        sugar_input pr = Desugar.DOk sd ->
+        forall (o : opts) (order : list key),
+          wf_project (stage_project content pragma has_main cv pf_id pf_name cs spay ord horder prime kv kd err_file name_id after payload s pr sd rest) ->
+          analysis_order (stage_project content pragma has_main cv pf_id pf_name cs spay ord horder prime kv kd err_file name_id after payload s pr sd rest) order ->
+          res_exit (run_keys (stage_project content pragma has_main cv pf_id pf_name cs spay ord horder prime kv kd err_file name_id after payload s pr sd rest) o order) = 0%Z ->
+          (forall z, In z (stage_ids cs) -> ~ In z (o_allow o)) ->
+          all_stages_passed canon is_dir is_file read_dir join parent file_name ext_circom starts_dot has_sep content
+                            pragma has_main cv argv libs s pr sd /\
+          (forall dd, In dd (handed_on pr sd) ->
+             def_in_named_file canon is_dir read_dir join ext_circom argv s dd ->
+             In (MAnalyzing (runner_kind (PM.d_kind dd), name_id (PM.d_name dd)))
+                (res_log (run_keys (stage_project content pragma has_main cv pf_id pf_name cs spay ord horder prime kv kd err_file name_id after payload s pr sd rest) o order)) /\
+             (LiftFull.is_block (PM.d_body dd) = true -> List.NoDup (PM.d_params dd)) /\
+             (forall e, lift_outcome ord horder prime kv kd dd = Some e -> e <> LEParamCollision ->
+                        err_file dd = None \/ err_file dd = PM.d_pfile dd ->
+                        In (r_id (item_report pf_id pf_name cs spay (SILiftError dd e (err_file dd)))) (o_allow o))).
+Proof. exact @clean_only_if_stages_passed. Qed.
+Print Assumptions C02_clean_only_if_stages_passed.
+
+(* the desugarer (C18's mirror Model.Desugar): the error report it raises for a
+   template body, and every report it pushes for a function body, is located
+   at a meta of that body — any predicate that holds of all metas of the body
+   holds of (start, end, file) of the report; in particular the report lies in
+   the file of the definition *)
+Theorem C02_desugarer_errors_located_in_body :
+  (forall (Q : Ast.meta -> Prop) env lib body r,
+     Forall Q (ExpandSpec.stmt_metas body) -> Desugar.desugar_template env lib body = Desugar.DErr r ->
+     Q (DesugarErrLoc.report_meta r)) /\
+  (forall (Q : Ast.meta -> Prop) body rs,
+     Forall Q (ExpandSpec.stmt_metas body) -> Desugar.check_function body = Desugar.DOk (Some rs) ->
+     Forall (fun r => Q (DesugarErrLoc.report_meta r)) rs).
+Proof. exact (conj DesugarErrLoc.desugar_template_error_located DesugarErrLoc.check_function_located). Qed.
+Print Assumptions C02_desugarer_errors_located_in_body.
+
+(* ... and a template / function that goes into `remove_syntactic_sugar` and has
+   no entry in what comes out was rejected with such a report, which is in the
+   collection handed back (the reports parse_files appends to its own) *)
+Theorem C02_dropped_definitions_are_reported : forall lib ts fs d,
+  Desugar.remove_syntactic_sugar lib ts fs = Desugar.DOk d ->
+  (forall n b, In (n, b) ts -> ~ In n (map fst (Desugar.d_templates d)) ->
+     exists r, Desugar.desugar_template (Desugar.env_of ts) lib b = Desugar.DErr r /\ In r (Desugar.d_reports d)) /\
+  (forall n b, In (n, b) fs -> ~ In n (map fst (Desugar.d_functions d)) ->
+     exists rs r, Desugar.check_function b = Desugar.DOk (Some rs) /\ In r rs /\
+                  forall r', In r' rs -> In r' (Desugar.d_reports d)) /\
+  (forall n b r, In (n, b) ts -> Desugar.desugar_template (Desugar.env_of ts) lib b = Desugar.DErr r ->
+                 In r (Desugar.d_reports d)) /\
+  (forall n b rs r, In (n, b) fs -> Desugar.check_function b = Desugar.DOk (Some rs) -> In r rs ->
+                    In r (Desugar.d_reports d)).
+Proof. exact DesugarErrLoc.remove_syntactic_sugar_drop_reported. Qed.
+Print Assumptions C02_dropped_definitions_are_reported.
+
+(* the lifter (C13's mirror Model.LiftFull): `function f(a, a)` / `template T(n, n)`
+   with a block as body — try_lift_impl answers ParameterNameCollisionError *)
+Theorem C02_repeated_parameter_collides : forall kind params pfile ploc body,
+  LiftFull.is_block body = true -> ~ List.NoDup params ->
+  LiftFull.try_lift_impl kind params pfile ploc body = Base.Err LiftFull.err_param_collision.
+Proof. exact NoSilentStages.repeated_parameter_collides. Qed.
+Print Assumptions C02_repeated_parameter_collides.
 
 (* the user-input set handed to the file filter is the set of file ids of the
    named files — also for a named file that another named file includes and
@@ -232,45 +358,120 @@ Proof.
   repeat split; vm_compute; reflexivity.
 Qed.
 
-(* the hypotheses of C02_failure_classes_reported are satisfiable for three of
-   the four derived classes on that file system (the named path nosuch.circom
+(* the hypotheses of C02_failure_classes_reported are satisfiable on that file
+   system for seven of the eight derived classes and for LiftFailure: the named path nosuch.circom
    cannot be canonicalised; bad.circom, file id 0, does not parse; the include
-   of x.circom in a.circom, file id 1, resolves nowhere), next to a lift error
-   and a pragma report that play no role for them *)
-Definition ex_lift_err : Runner.report := mkReport Error 2 2 [1%Z] 7.
-Definition ex_T : def := mkDef KTemplate 1 1 [] (Some ex_lift_err) [] [].
-Definition ex_pragma : Runner.report := mkReport Error 3 3 [] 8.
+   of x.circom in a.circom, file id 1, resolves nowhere; a.circom asks for
+   circom 3.0.0 (the compiler version being 2.1.4); a.circom and b.circom both
+   have a main component; the template T of a.circom uses a tuple as a condition
+   and is rejected by the desugarer (C18's mirror, evaluated); the function f of
+   a.circom is `f(a, a)`; the function g of a.circom is
+   `function g(a) { var yy; return yy; }` (the syntax tree the parser yields for
+   it), for which the chain of lifting and SSA mirrors answers with
+   UndefinedVariableError (evaluated) *)
+Definition ex_pragma (p : spath) : option version :=
+  if decide (p = str "/r/a.circom") then Some (3, 0, 0) else Some (2, 0, 0).
+Definition ex_main (p : spath) : bool := true.
+Definition ex_cs : codes :=
+  Codes (Code 1003 1003) (Code 1004 1004) (Code 1002 1002) (Code 2002 2002) (Code 2001 2001) (Code 3002 3002) (Code 2003 2003).
+Definition ex_spay (it : stage_item spath) : Z := 9.
+Definition ex_ord (n : nat) (l : list nat) : list nat := l.
+Definition ex_horder (l : list nat) : list nat := l.
+Definition ex_after (d : PM.definition) : def := no_def.
+Definition ex_m : Ast.meta := Ast.Meta 0 1 (Some 1%N).
+Definition ex_T_body : Ast.statement :=
+  Ast.Block ex_m [Ast.IfThenElse ex_m (Ast.Tuple ex_m []) (Ast.Block ex_m []) None].
+Definition ex_f_body : Ast.statement := Ast.Block ex_m [Ast.Return ex_m (Ast.Number ex_m 0)].
+Definition ex_T : PM.definition := PM.Def "T" Ir.KTemplate [] (Some 1%N) (0%N, 0%N) ex_T_body.
+Definition ex_f : PM.definition := PM.Def "f" Ir.KFunction ["a"%string; "a"%string] (Some 1%N) (0%N, 0%N) ex_f_body.
+Definition ex_mk (a b : N) : Ast.meta := Ast.Meta a b (Some 1%N).
+Definition ex_g_body : Ast.statement :=
+  Ast.Block (ex_mk 14 36)
+    [Ast.InitializationBlock (ex_mk 16 22) Ast.VVar [Ast.Declaration (ex_mk 16 22) Ast.VVar "yy" [] true];
+     Ast.Return (ex_mk 24 34) (Ast.Variable_ (ex_mk 31 33) "yy" [])].
+Definition ex_g : PM.definition := PM.Def "g" Ir.KFunction ["a"%string] (Some 1%N) (11%N, 12%N) ex_g_body.
+Definition ex_name2 (n : String.string) : Z := if String.eqb n "g" then 8 else 7.
+Definition ex_pr : PM.program := PM.Program [[0%N]; [0%N]; [0%N]] [ex_T] [ex_f; ex_g].
+Definition ex_r0 : Desugar.report := Desugar.Report Desugar.RCTupleError Desugar.MTupleCond 0 1 1 Desugar.LProblem.
+Definition ex_sd : Desugar.desugared :=
+  Desugar.Desugared [] [("f"%string, ex_f_body); ("g"%string, ex_g_body)] [ex_r0].
 
 Example C02_events_satisfiable :
+  sugar_input ex_pr = Desugar.DOk ex_sd /\
   exists s, run_project false ex_fs ex_argv [] = Base.Ok s /\
-    wf_project (front_project 1000 1000 ex_pay s [ex_pragma] [ex_T]) /\
-    analysis_order (front_project 1000 1000 ex_pay s [ex_pragma] [ex_T]) [(KTemplate, 1%Z)] /\
-    class_producer MissingFile = ByIncludes /\ class_producer SyntaxError = ByIncludes /\
-    class_producer UnresolvedInclude = ByIncludes /\
+    wf_project (stage_project (d_content ex_fs) ex_pragma ex_main (2, 1, 4) 1000 1000 ex_cs ex_spay ex_ord ex_horder 7%Z 0 0 PM.d_pfile
+                     ex_name2 ex_after ex_pay s ex_pr ex_sd []) /\
+    analysis_order (stage_project (d_content ex_fs) ex_pragma ex_main (2, 1, 4) 1000 1000 ex_cs ex_spay ex_ord ex_horder 7%Z 0 0 PM.d_pfile
+                     ex_name2 ex_after ex_pay s ex_pr ex_sd []) [(KFunction, 7%Z); (KFunction, 8%Z)] /\
     failure_event (d_canon ex_fs) (d_is_dir ex_fs) (d_is_file ex_fs) (d_read_dir ex_fs) s_join s_parent s_file_name
-                  s_ext_circom s_starts_dot s_has_sep (d_content ex_fs) 1000 1000 ex_pay ex_argv [] s
-                  [ex_pragma] [ex_T] MissingFile (mkReport Error 1000 1000 [] 1) /\
+                  s_ext_circom s_starts_dot s_has_sep (d_content ex_fs) 1000 1000 ex_pay ex_pragma ex_main (2, 1, 4) ex_cs ex_spay
+                  ex_ord ex_horder 7%Z 0 0 PM.d_pfile ex_argv [] s ex_pr ex_sd [] MissingFile (mkReport Error 1000 1000 [] 1) /\
     failure_event (d_canon ex_fs) (d_is_dir ex_fs) (d_is_file ex_fs) (d_read_dir ex_fs) s_join s_parent s_file_name
-                  s_ext_circom s_starts_dot s_has_sep (d_content ex_fs) 1000 1000 ex_pay ex_argv [] s
-                  [ex_pragma] [ex_T] SyntaxError (mkReport Error 1000 1000 [0%Z] 2) /\
+                  s_ext_circom s_starts_dot s_has_sep (d_content ex_fs) 1000 1000 ex_pay ex_pragma ex_main (2, 1, 4) ex_cs ex_spay
+                  ex_ord ex_horder 7%Z 0 0 PM.d_pfile ex_argv [] s ex_pr ex_sd [] SyntaxError (mkReport Error 1000 1000 [0%Z] 2) /\
     failure_event (d_canon ex_fs) (d_is_dir ex_fs) (d_is_file ex_fs) (d_read_dir ex_fs) s_join s_parent s_file_name
-                  s_ext_circom s_starts_dot s_has_sep (d_content ex_fs) 1000 1000 ex_pay ex_argv [] s
-                  [ex_pragma] [ex_T] UnresolvedInclude (mkReport Error 1000 1000 [1%Z] 3).
+                  s_ext_circom s_starts_dot s_has_sep (d_content ex_fs) 1000 1000 ex_pay ex_pragma ex_main (2, 1, 4) ex_cs ex_spay
+                  ex_ord ex_horder 7%Z 0 0 PM.d_pfile ex_argv [] s ex_pr ex_sd [] UnresolvedInclude (mkReport Error 1000 1000 [1%Z] 3) /\
+    failure_event (d_canon ex_fs) (d_is_dir ex_fs) (d_is_file ex_fs) (d_read_dir ex_fs) s_join s_parent s_file_name
+                  s_ext_circom s_starts_dot s_has_sep (d_content ex_fs) 1000 1000 ex_pay ex_pragma ex_main (2, 1, 4) ex_cs ex_spay
+                  ex_ord ex_horder 7%Z 0 0 PM.d_pfile ex_argv [] s ex_pr ex_sd [] BadPragma (mkReport Error 1003 1003 [] 9) /\
+    failure_event (d_canon ex_fs) (d_is_dir ex_fs) (d_is_file ex_fs) (d_read_dir ex_fs) s_join s_parent s_file_name
+                  s_ext_circom s_starts_dot s_has_sep (d_content ex_fs) 1000 1000 ex_pay ex_pragma ex_main (2, 1, 4) ex_cs ex_spay
+                  ex_ord ex_horder 7%Z 0 0 PM.d_pfile ex_argv [] s ex_pr ex_sd [] SeveralMains (mkReport Error 1002 1002 [] 9) /\
+    failure_event (d_canon ex_fs) (d_is_dir ex_fs) (d_is_file ex_fs) (d_read_dir ex_fs) s_join s_parent s_file_name
+                  s_ext_circom s_starts_dot s_has_sep (d_content ex_fs) 1000 1000 ex_pay ex_pragma ex_main (2, 1, 4) ex_cs ex_spay
+                  ex_ord ex_horder 7%Z 0 0 PM.d_pfile ex_argv [] s ex_pr ex_sd [] InvalidTupleOrAnonymous (mkReport Error 2002 2002 [1%Z] 9) /\
+    failure_event (d_canon ex_fs) (d_is_dir ex_fs) (d_is_file ex_fs) (d_read_dir ex_fs) s_join s_parent s_file_name
+                  s_ext_circom s_starts_dot s_has_sep (d_content ex_fs) 1000 1000 ex_pay ex_pragma ex_main (2, 1, 4) ex_cs ex_spay
+                  ex_ord ex_horder 7%Z 0 0 PM.d_pfile ex_argv [] s ex_pr ex_sd [] DuplicateParameter (mkReport Error 3002 3002 [1%Z] 9) /\
+    failure_event (d_canon ex_fs) (d_is_dir ex_fs) (d_is_file ex_fs) (d_read_dir ex_fs) s_join s_parent s_file_name
+                  s_ext_circom s_starts_dot s_has_sep (d_content ex_fs) 1000 1000 ex_pay ex_pragma ex_main (2, 1, 4) ex_cs ex_spay
+                  ex_ord ex_horder 7%Z 0 0 PM.d_pfile ex_argv [] s ex_pr ex_sd [] LiftFailure (mkReport Error 2003 2003 [1%Z] 9).
 Proof.
+  split; [vm_compute; reflexivity|].
   eexists. split; [vm_compute; reflexivity|].
   assert (Hnamed : named (d_canon ex_fs) (d_is_dir ex_fs) (d_read_dir ex_fs) s_join s_ext_circom ex_argv (str "/r/a.circom")).
   { exists (str "a.circom"). split; [right; left|]. apply expands_file; reflexivity. }
   assert (Hbad : named (d_canon ex_fs) (d_is_dir ex_fs) (d_read_dir ex_fs) s_join s_ext_circom ex_argv (str "/r/bad.circom")).
   { exists (str "bad.circom"). split; [do 3 right; left|]. apply expands_file; reflexivity. }
-  split. { unfold wf_project. simpl. repeat constructor. intros []. }
+  assert (Hb : named (d_canon ex_fs) (d_is_dir ex_fs) (d_read_dir ex_fs) s_join s_ext_circom ex_argv (str "/r/b.circom")).
+  { exists (str "b.circom"). split; [left|]. apply expands_file; reflexivity. }
+  assert (Hfile1 : file_is_named (d_canon ex_fs) (d_is_dir ex_fs) (d_read_dir ex_fs) s_join s_ext_circom ex_argv
+                     {| ps_stack := FileStack (Some (str "/r")) [str "/r/b.circom"; str "/r/a.circom"; str "/r/bad.circom"]
+                                      [str "/r/bad.circom"; str "/r/a.circom"; str "/r/b.circom"] [] [];
+                        ps_files := [(str "/r/bad.circom", true); (str "/r/a.circom", true); (str "/r/b.circom", true)];
+                        ps_reports := [FileOsError (str "nosuch.circom"); ParsingError 0; IncludeError (str "x.circom") (Some 1) 21 40];
+                        ps_read := [str "/r/bad.circom"; str "/r/a.circom"; str "/r/b.circom"] |} 1%Z).
+  { exists 1, (str "/r/a.circom"), true. split; [reflexivity|]. split; [reflexivity|exact Hnamed]. }
+  split.
+  { unfold wf_project. vm_compute. apply List.NoDup_cons; [intros [H|[]]; discriminate H|].
+    apply List.NoDup_cons; [intros []|apply List.NoDup_nil]. }
   split. { vm_compute. apply Permutation_refl. }
-  split; [reflexivity|]. split; [reflexivity|]. split; [reflexivity|].
   split. { simpl. exists (str "nosuch.circom"), (str "nosuch.circom"). split; [do 2 right; left|].
            split; [apply fto_file; reflexivity|reflexivity]. }
   split.
   { simpl. exists (str "/r/bad.circom"), 0, true. split; [exact Hbad|]. repeat split; reflexivity. }
-  simpl. exists (str "/r/a.circom"), [ (str "x.circom", 21, 40); (str "b.circom", 41, 60) ], (str "x.circom"), 21, 40, 1, true.
-  split; [exact Hnamed|]. split; [reflexivity|]. split; [left|].
-  split; [|split; reflexivity].
-  apply resolves_nowhere; [reflexivity|]. unfold the_libraries. simpl. constructor.
+  split.
+  { simpl. exists (str "/r/a.circom"), [ (str "x.circom", 21, 40); (str "b.circom", 41, 60) ], (str "x.circom"), 21, 40, 1, true.
+    split; [exact Hnamed|]. split; [reflexivity|]. split; [left|].
+    split; [|split; reflexivity].
+    apply resolves_nowhere; [reflexivity|]. unfold the_libraries. simpl. constructor. }
+  split.
+  { simpl. exists (str "/r/a.circom"), [ (str "x.circom", 21, 40); (str "b.circom", 41, 60) ], (3, 0, 0).
+    split; [by apply reach_named|]. repeat split; reflexivity. }
+  split.
+  { simpl. exists (str "/r/a.circom"), (str "/r/b.circom").
+    split; [intros H; vm_compute in H; discriminate H|].
+    split; [by apply reach_named|]. split; [by apply reach_named|]. repeat split; reflexivity. }
+  split.
+  { simpl. exists "T"%string, ex_T_body, 1%N, ex_r0. split; [left; split; [left; reflexivity|vm_compute; reflexivity]|].
+    split; [unfold body_in_file; vm_compute; repeat constructor|]. split; [exact Hfile1|reflexivity]. }
+  split.
+  { simpl. exists ex_f. split; [vm_compute; left; reflexivity|].
+    split; [exists 1%N; split; [reflexivity|exact Hfile1]|].
+    split; [reflexivity|]. split; [|reflexivity].
+    intros H. inversion H as [|x l Hx Hl]; subst. apply Hx. left. reflexivity. }
+  simpl. exists ex_g, LEUndefined. split; [vm_compute; right; left; reflexivity|].
+  split; [exists 1%N; split; [reflexivity|exact Hfile1]|].
+  split; [vm_compute; reflexivity|]. split; [discriminate|]. split; [right; reflexivity|reflexivity].
 Qed.
